@@ -58,7 +58,7 @@ pvars == <<lsn, att, natt, ep, synSeen, accd, flow, drops, premOk, idle, ok>>
 NoAtt == [st |-> "none", port |-> 0, sawUp |-> FALSE, sawDown |-> FALSE, full |-> FALSE]
 NoEp  == [h |-> "none", wr |-> <<>>, rd |-> <<>>, eof |-> FALSE, wfin |-> "open"]
 OkAll == [caps |-> TRUE, mss |-> TRUE, wnd |-> TRUE, udp |-> TRUE, accept |-> TRUE,
-          conn |-> TRUE, abort |-> TRUE, prog |-> TRUE, tab |-> TRUE]
+          conn |-> TRUE, abort |-> TRUE, prog |-> TRUE, cpend |-> TRUE, tab |-> TRUE]
 
 PInit ==
     /\ lsn = [st |-> "none", port |-> 0]
@@ -111,7 +111,9 @@ MayLinger(s) == Cardinality({p \in Ports : ep[<<p, s>>].h = "dropped" /\ PeerOwn
 \* handles (or the connect was cancelled, or the listener dropped) and the
 \* wire has been empty for retx_threshold*(retx_max+1)+2 egress rounds, the
 \* hook counts of sockets, bindings and connection-index entries on both
-\* hosts equal those of the live handles only".  Un-accepted children are
+\* hosts equal those of the live handles only" - claimed, as the quantifier
+\* says, for packets "dropped within the retransmit budget" (premOk; a lost
+\* RST is outside it).  Un-accepted children are
 \* owned by the listener handle and are counted by its netstat Recv-Q.
 TablesIn(obs) ==
     LET live1 == LiveConn + Held("c")
@@ -306,8 +308,8 @@ P_Egress(pk, wlen, maxage, obs) ==
              !.mss = @ /\ \A i \in 1..Len(pk) : EmitOkMss(pk[i]),
              !.wnd = @ /\ \A i \in 1..Len(pk) : EmitOkWnd(pk[i]),
              \* C13: no connect is still pending once everything has run out
-             !.prog = @ /\ (idle2 >= R => \A c \in Ports : att[c].st # "pending"),
-             !.tab = @ /\ (idle2 >= R => TablesIn(obs))]
+             !.cpend = @ /\ (idle2 >= R => \A c \in Ports : att[c].st # "pending"),
+             !.tab = @ /\ ((idle2 >= R /\ premOk') => TablesIn(obs))]
     /\ UNCHANGED <<lsn, att, natt, ep, accd, flow, drops>>
 
 \* the wire hands packet p (kept for `age` rounds) to its destination host
@@ -320,12 +322,16 @@ P_Deliver(p, age, obs) ==
                ELSE flow
     /\ idle' = 0
     /\ premOk' = (premOk /\ age <= PremAge)
-    /\ ok' = [ok EXCEPT !.caps = @ /\ CapsIn(obs)]
+    \* C13 "has backlog room": the accept queue (netstat Recv-Q of the listener) never
+    \* holds more established connections than the backlog
+    /\ ok' = [ok EXCEPT !.caps = @ /\ CapsIn(obs), !.accept = @ /\ obs.lq <= Backlog]
     /\ UNCHANGED <<lsn, att, natt, ep, synSeen, accd, drops>>
 
 P_Drop(p, obs) ==
     /\ drops' = drops + 1
-    /\ premOk' = (premOk /\ drops + 1 <= PremD)
+    \* "fewer than the retransmit budget of any single segment": an RST is never
+    \* retransmitted, so losing one is outside the premise of the liveness half
+    /\ premOk' = (premOk /\ drops + 1 <= PremD /\ ~(IsTcp(p) /\ Has(p, "R")))
     /\ idle' = 0
     /\ ok' = [ok EXCEPT !.caps = @ /\ CapsIn(obs)]
     /\ UNCHANGED <<lsn, att, natt, ep, synSeen, accd, flow>>
@@ -366,9 +372,12 @@ UdpOk    == ok.udp
 AcceptOnce  == ok.accept
 ConnectRule == ok.conn
 Reclaimed   == ok.tab
+\* C13: "a connect ends in exactly one of Ok / Refused / TimedOut": none is still
+\* pending once every retransmit budget has run out
+ConnectCompletes == ok.cpend
 
 C06Safety == PrefixInv /\ EofOnlyAtEnd
 C06Inv == PrefixInv /\ EofOnlyAtEnd /\ NoSpuriousAbort /\ BoundedProgress
 C16Inv == CapsOk /\ MssOk /\ WindowOk /\ UdpOk
-C13Inv == AcceptOnce /\ ConnectRule /\ Reclaimed /\ BoundedProgress
+C13Inv == AcceptOnce /\ ConnectRule /\ Reclaimed /\ ConnectCompletes
 =============================================================================
